@@ -1,5 +1,5 @@
 (* C43  JSON-Cadence and CCF decode to the same value.
-   Corollary of C41 (proved) and of the CCF round trip (a hypothesis: the CCF decoder is not
+   A corollary of C41 (proved) and of the CCF round trip (a hypothesis: the CCF decoder is not
    modelled, see C42); the real decoders are compared with each other on every run. *)
 From CV Require Import C41.Json C41.Cases C41.ValueProofs C41.Findings C43.Corollary.
 
